@@ -154,7 +154,7 @@ def h_hash(P, S):
 def _ns(ds, quick):
     full = list(range(1, 3 * ds + 3))
     if not quick:
-        return full
+        return full + [100, 199, 200]
     return sorted({1, 2, ds - 1, ds, ds + 1, 2 * ds - 1, 2 * ds, 2 * ds + 1, 3 * ds, 3 * ds + 2})
 
 
